@@ -1429,23 +1429,13 @@ fn run_case(cs: &CaseSpec, stats: &mut Stats) -> (Case, Vec<serde_json::Value>) 
             }));
         }
         // ---- statistics ----
-        let kind = format!(
-            "msg{}{}{}{}{}{}",
-            if feat.reentrant { "+reent" } else { "" },
-            if feat.failed_call { "+fail" } else { "" },
-            if feat.delegate { "+deleg" } else { "" },
-            if feat.stat { "+static" } else { "" },
-            if feat.selfdestruct { "+sd" } else { "" },
-            if feat.create { "+create" } else { "" },
-        );
-        stats.op(&kind, code);
+        stats.op("msg", code);
         for (f, name) in [
             (feat.reentrant, "reentrant"), (feat.failed_call, "failed_inner_call"), (feat.delegate, "delegatecall"),
             (feat.stat, "staticcall"), (feat.selfdestruct, "selfdestruct"), (feat.create, "create"), (feat.transient, "transient"),
         ] {
             if f {
-                let e = stats.extra.entry(format!("msgs_with_{}", name)).or_insert(serde_json::json!(0));
-                *e = serde_json::json!(e.as_u64().unwrap() + 1);
+                stats.op(&format!("msg_with_{}", name), code);
             }
         }
         {
